@@ -243,6 +243,33 @@ def oracle_uncovered_positive_term(rng):
     return None
 
 
+def oracle_box_as_norms(rng):
+    """a box written coordinate by coordinate with norm constraints (|x_i| <= 1: second-order cones next to each other in X.K) is the box: the bound of a
+    posynomial over it is its minimum at the corner, and a one-negative-term signomial that is negative at the corner has no certificate"""
+    import sageopt.coniclifts as cl
+    from sageopt import SigDomain
+    from sageopt.relaxations import sage_sigs as ss
+    with warnings.catch_warnings():
+        warnings.simplefilter('ignore')
+        def dom(form, tag):
+            xb = cl.Variable(shape=(2,), name='boxnorm_%s_%s' % (form, tag))
+            if form == 'norms':
+                return SigDomain(2, coniclifts_cons=[cl.vector2norm(xb[0:1]) <= 1, cl.vector2norm(xb[1:2]) <= 1])
+            return SigDomain(2, coniclifts_cons=[xb <= 1, xb >= -1])
+        f = sig([([Fraction(1), Fraction(0)], Fraction(1)), ([Fraction(0), Fraction(1)], Fraction(1)), ([Fraction(0), Fraction(0)], Fraction(1, 2))], 2)
+        want = 2 * math.exp(-1.0) + 0.5
+        for form in ('norms', 'bounds'):
+            for fm in ('primal', 'dual'):
+                st, val = ss.sig_relaxation(f, dom(form, fm), form=fm).solve(verbose=False)
+                if not (st == 'solved' and abs(val - want) <= 1e-5):
+                    return 'sig_relaxation (%s) of exp(x1) + exp(x2) + 1/2 over the box [-1,1]^2 written with %s reports (%s, %r); the minimum is %r' % (fm, form, st, val, want)
+            g = sig([([Fraction(1), Fraction(0)], Fraction(1)), ([Fraction(0), Fraction(1)], Fraction(1)), ([Fraction(0), Fraction(0)], Fraction(-17, 20))], 2)
+            st, val = ss.sage_feasibility(g, dom(form, 'feas')).solve(verbose=False)
+            if st == 'solved' and val > -np.inf:
+                return 'sage_feasibility certifies exp(x1) + exp(x2) - 0.85 over the box [-1,1]^2 written with %s; its minimum there is %r' % (form, 2 * math.exp(-1.0) - 0.85)
+    return None
+
+
 def oracle_conditional(rng):
     """at most one negative coefficient over a conic X (incl. equality blocks followed by other cones, a box in the negative
     orthant): both forms are lower bounds on sampled points of X, primal <= dual, and the optimisation-based cover presolve
@@ -481,7 +508,7 @@ def covers_suite(ctx):
 
 def run(ctx):
     covers_suite(ctx)
-    for name, f, reps in (('directed', oracle_directed, 1), ('full_covers_box', oracle_full_covers_box, 1), ('uncovered_positive_term', oracle_uncovered_positive_term, 1), ('circuit', oracle_circuit, ctx.n(4, 30)), ('one_negative_box', oracle_one_negative_box, ctx.n(6, 60)),
+    for name, f, reps in (('directed', oracle_directed, 1), ('full_covers_box', oracle_full_covers_box, 1), ('uncovered_positive_term', oracle_uncovered_positive_term, 1), ('box_as_norms', oracle_box_as_norms, 1), ('circuit', oracle_circuit, ctx.n(4, 30)), ('one_negative_box', oracle_one_negative_box, ctx.n(6, 60)),
                           ('conditional', oracle_conditional, ctx.n(40, 300))):
         for _ in range(reps):
             why = f(ctx.rng)
